@@ -3,6 +3,7 @@
    \NNN, \c, %[-]WIDTHdirective); [render_ref] its reference rendering.  [run_printf] is the model of
    FormatStringParser + Printf::print.  [value d] is the text of directive d for the file at hand (the
    path-valued ones are modelled in PrintfValue.v, the numeric ones come from the record C13 selects). *)
+From Coq Require Import NArith.
 Require Import Tables TablesOk Printf PrintfSpec PrintfProofs Entry EntryProofs PathModel Paths PathsProofs PrintfValue PrintfValueProofs.
 From Coq Require Import List Arith Bool Lia.
 Import ListNotations.
@@ -62,6 +63,26 @@ Print Assumptions C16_h_f_below.
 Example C16_h_f_witness :
   (pv_f [100; 47; 46], pv_h [100; 47; 46]) = ([46], [100]) /\ pv_h [100; 47; 46; 47; 120] = [100; 47; 46] /\
   (pv_f [120; 47], pv_h [120; 47]) = ([120], [46]) /\ (pv_f [47], pv_h [47]) = ([47], []).
+Proof. vm_compute. repeat split. Qed.
+
+(* The numeric directives (%s %n %i %U %G %d in decimal, %m in octal) print the digits of the number and nothing else: read
+   back in that base the text is the number, every character is a digit of the base, and there is no padding - a non-zero
+   number does not begin with 0, and zero is the single digit 0 (mode 0004 is "4", mode 0 is "0"). *)
+Theorem C16_numbers : forall b n, (2 <= b)%N -> (b <= 10)%N ->
+  value_of b (render_num b n) 0 = n /\
+  Forall (fun d => 48 <= d /\ (N.of_nat (d - 48) < b)%N) (render_num b n) /\
+  (n = 0%N -> render_num b n = [48]) /\
+  ((0 < n)%N -> exists d rest, render_num b n = d :: rest /\ d <> 48).
+Proof.
+  intros b n H1 H2. split; [exact (render_num_value b n H1 H2)|]. split; [exact (render_num_digits b n H1 H2)|].
+  exact (render_num_canonical b n H1).
+Qed.
+Print Assumptions C16_numbers.
+
+(* mode 0644 = 420, 04 and 0 in octal; size 1048576 in decimal *)
+Example C16_numbers_witness :
+  render_num 8 420 = [54; 52; 52] /\ render_num 8 4 = [52] /\ render_num 8 0 = [48] /\
+  render_num 10 1048576 = [49; 48; 52; 56; 53; 55; 54] /\ render_num 8 4095 = [55; 55; 55; 55].
 Proof. vm_compute. repeat split. Qed.
 
 (* non-vacuity:  "[%-5d|%3f]\t%%\101\\"  with %d = "2" and %f = "name" *)
